@@ -31,9 +31,10 @@ type Gen struct {
 }
 
 type ManRef struct {
-	Digest string
-	Media  string
-	Size   int64
+	Digest  string
+	Media   string
+	Size    int64
+	Content []byte
 }
 
 type WriterInfo struct {
@@ -205,6 +206,17 @@ func (g *Gen) descFor(repo string, present bool, media string) ocispec.Descripto
 }
 
 func (g *Gen) manifestContent(repo string) (content []byte, media string) {
+	// now and then the bytes of a manifest already stored, under another media type
+	if ml := g.Manifests[repo]; len(ml) > 0 && g.R.Intn(12) == 0 {
+		mr := ml[g.R.Intn(len(ml))]
+		if mr.Content != nil {
+			for _, m := range []string{"application/vnd.foo", ocispec.MediaTypeImageManifest, ocispec.MediaTypeImageIndex} {
+				if m != mr.Media {
+					return mr.Content, m
+				}
+			}
+		}
+	}
 	switch p := g.R.Intn(20); {
 	case p < 3: // opaque media type, arbitrary bytes
 		return g.content(), []string{"application/vnd.foo", "text/plain", ""}[g.R.Intn(3)]
@@ -491,7 +503,7 @@ func (g *Gen) Update(o Op, r Result, e *Exec) {
 		}
 	case "PushManifest":
 		if r.Kind == "desc" {
-			g.Manifests[o.Repo] = append(g.Manifests[o.Repo], ManRef{r.Desc.Digest, o.Media, r.Desc.Size})
+			g.Manifests[o.Repo] = append(g.Manifests[o.Repo], ManRef{Digest: r.Desc.Digest, Media: o.Media, Size: r.Desc.Size, Content: o.Content})
 			if o.Tag != "" {
 				g.TagsSet[o.Repo] = append(g.TagsSet[o.Repo], o.Tag)
 			}
